@@ -734,3 +734,40 @@ def slots(rng):
     sc = base(gname, peers, steps, [{'k': 'peers', 'peers': []}], pat=rng.randrange(251))
     sc['family'] = 'slots'
     return sc
+
+
+def dupaddr(rng):
+    """C12/C02/C08: a second connection arrives from an address the client is already connected to (a peer whose
+    outgoing connections use its listening port, a quick reconnect from the same port, or a peer playing
+    tricks).  The client must keep exactly one peer record per address: the reservation of the first
+    connection stays backed, the download continues and nothing panics."""
+    gname = rng.choice(['g4', 'g3', 'g2'])
+    pl, files, n, plens = geo(gname)
+    first_out = rng.random() < 0.5
+    a = peer(0, set(range(n)), serve='none')
+    b = peer(1, set(range(n)), serve='none', label=a['addr'] + '#2')
+    b['addr'] = a['addr']
+    c = peer(2, set(range(n)), serve='good')
+    if first_out:
+        a['listen'] = True
+    steps = [{'op': 'advance', 'ms': 20}]
+    if not first_out:
+        steps.append({'op': 'connect', 'peer': 0})
+    steps += [send(0, hs(), bf(range(n))), send(0, fr('Unchoke'))]
+    variant = rng.choice(['live', 'live', 'reconnect'])
+    if variant == 'live':
+        # both connections exist at once
+        steps += [{'op': 'connect', 'peer': 1}, send(1, hs())]
+        if rng.random() < 0.5:
+            steps.append(send(1, bf(range(n)), fr('Unchoke')))
+        steps += [{'op': 'serve', 'peer': 0, 'mode': 'good'}, {'op': 'advance', 'ms': 50}]
+    else:
+        # the first connection is closed and the same address connects again before the client has noticed
+        steps += [{'op': 'close', 'peer': 0, 'settle': False}, {'op': 'connect', 'peer': 1}, send(1, hs(), bf(range(n)), fr('Unchoke')),
+                  {'op': 'serve', 'peer': 1, 'mode': 'good'}, {'op': 'advance', 'ms': 50}]
+    steps += [{'op': 'connect', 'peer': 2}, send(2, hs(), bf(range(n))), send(2, fr('Unchoke')), {'op': 'advance', 'ms': 25000, 'slice': 1000}]
+    sc = base(gname, [a, b, c], steps, [{'k': 'peers', 'peers': [0] if first_out else []}], pat=rng.randrange(251))
+    sc['family'] = 'honest'
+    sc['essential'] = [2]
+    sc['variant'] = variant
+    return sc
